@@ -45,6 +45,9 @@ pub fn check(c: &Case) -> CheckResult {
     let storage = c.msg.storage.is_some();
     let len = bytes.len();
     let cuts = cuts_for(len, &map);
+    // one of 7 filter configurations per message (chosen by the message itself, so that the case stays one value)
+    let fidx = 1 + (crate::util::hash_of(&c.msg) % 7) as u8;
+    let filter = crate::oracle::filter_by_index(fidx);
     let mut pass = Pass::new(false);
     let mut in_field = 0u64;
     for &cut in &cuts {
@@ -72,6 +75,27 @@ pub fn check(c: &Case) -> CheckResult {
                     "prefix of {} of {} bytes (cut inside {}, storage={}) is not reported incomplete: {}; message={}",
                     cut, len, role_s, storage, short_dbg(&other), hex_short(&bytes)
                 ))
+            }
+        }
+        // under a filter configuration a prefix is incomplete as well (never a filtered-out marker)
+        if let Some(f) = &filter {
+            let r = guard(|| dlt_message(prefix, Some(f), storage).map(|(rest, pm)| (rest.len(), pm)))
+                .map_err(|p| Violation::from_panic(&format!("dlt_message with filter #{} on the {}-byte prefix of a {}-byte message", fidx, cut, len), &p))?;
+            match r {
+                Err(DltParseError::IncompleteParse { needed }) => {
+                    if let Some(n) = needed {
+                        if n.get() > len - cut {
+                            return Err(viol!(format!("prefix:{}:filter:hint-too-large", role_s), "prefix of {} of {} bytes with filter #{}: hint {} > missing {}", cut, len, fidx, n, len - cut));
+                        }
+                    }
+                }
+                other => {
+                    return Err(viol!(
+                        format!("prefix:{}:filter:not-incomplete", role_s),
+                        "prefix of {} of {} bytes (cut inside {}, storage={}, filter #{}) is not reported incomplete: {}; message={}",
+                        cut, len, role_s, storage, fidx, short_dbg(&other), hex_short(&bytes)
+                    ))
+                }
             }
         }
         if storage {
@@ -122,7 +146,7 @@ pub fn run(run: &Run) {
     run.rule(
         "cases = well-formed messages x storage mode; per message ALL cut positions 0..len-1 are enumerated (messages <= 4 KiB; for larger ones the \
          first 96 / last 64 bytes, start/middle/end of every multi-byte field and length prefix from the reference encoder's field map, and 256 spread \
-         cuts); each prefix must be IncompleteParse with hint in 1..=missing, dlt_consume_msg likewise (no message on the empty prefix); non-trivial = \
+         cuts); each prefix must be IncompleteParse with hint in 1..=missing, without a filter and under one of 7 filter configurations, dlt_consume_msg likewise (no message on the empty prefix); non-trivial = \
          message with at least one cut strictly inside a multi-byte field; distinct by message; sub_evaluations counts the prefixes",
     );
     run.regressions(&replay);
